@@ -12,7 +12,7 @@ SEEDED = os.path.join(ROOT, "seeded")
 
 def sh(cmd, cwd=None, timeout=3600):
     p = subprocess.run(cmd, cwd=cwd, stdout=subprocess.PIPE, stderr=subprocess.STDOUT, text=True, timeout=timeout,
-                       env=dict(os.environ, CARGO_NET_OFFLINE="true"))
+                       stdin=subprocess.DEVNULL, env=dict(os.environ, CARGO_NET_OFFLINE="true"))
     return p.returncode, p.stdout
 
 
@@ -31,7 +31,8 @@ def confirm(src, wt, name):
         rec["apply_log"] = out[-500:]
         return rec
     shutil.copy(demo, os.path.join(wt, "tests", "demo_seed.rs"))
-    rc, out = sh(["cargo", "test", "--workspace", "--no-fail-fast", "--offline"], cwd=wt)
+    rc, out = sh(["timeout", "900", "cargo", "test", "--workspace", "--no-fail-fast", "--offline"], cwd=wt)
+    rec["suite_timed_out"] = rc == 124
     lines = [l for l in out.splitlines() if l.startswith("test ") and l.rstrip().endswith(("ok", "FAILED"))]
     failed = [l for l in lines if l.rstrip().endswith("FAILED")]
     suite_failed = [l for l in failed if "demo" not in l and not any(d in l for d in demo_tests(demo))]
@@ -40,7 +41,7 @@ def confirm(src, wt, name):
     rec["demo_fails_with_change"] = any(any(d in l for d in demo_tests(demo)) for l in failed)
     rec["with_change_tail"] = [l for l in failed][:6]
     sh(["git", "checkout", "--", "."], cwd=wt)
-    rc, out = sh(["cargo", "test", "--offline", "--test", "demo_seed"], cwd=wt)
+    rc, out = sh(["timeout", "600", "cargo", "test", "--offline", "--test", "demo_seed"], cwd=wt)
     rec["demo_passes_without_change"] = rc == 0
     rec["without_change_tail"] = out.splitlines()[-4:]
     os.remove(os.path.join(wt, "tests", "demo_seed.rs"))
